@@ -333,7 +333,78 @@ var rTypeNameRaw = &Rule{
 				"the type-name part of the type key is not the type's own String() ("+describeVal(call.Call.Args[1])+"): keys of the affected types differ from the names given to RegisterTypeMigration and from what other versions send")
 		})
 		c.Check(n >= 1, "errbase.getFullTypeName: key construction", fn.Pos(), "makeTypeKey is called", "getFullTypeName no longer builds the key with makeTypeKey")
+		// the package-path part (round 12): the value handed to makeTypeKey is a reflect.Type.PkgPath() result (of the type or,
+		// for unnamed composite types, of its element - whatever helper computes it), or the empty string: never a rewritten path.
+		// RegisterTypeMigration builds the previous key from the caller's raw strings with the same makeTypeKey; a
+		// normalisation applied on one side only makes the key of a live type differ from the key registered for it.
+		np := 0
+		sx.EachInstr(fn, func(in ssa.Instruction) {
+			call, ok := in.(*ssa.Call)
+			if !ok || sx.Callee(call) == nil || sx.Callee(call).Name() != "makeTypeKey" || len(call.Call.Args) != 2 {
+				return
+			}
+			np++
+			bad := pkgPathNotRaw(call.Call.Args[0], map[ssa.Value]bool{}, map[*ssa.Function]bool{})
+			c.Check(bad == nil, "errbase.getFullTypeName: package-path part of the key", call.Pos(), "a reflect.Type.PkgPath() result or \"\"",
+				"the package-path part of the type key is not the type's own PkgPath() ("+describeValOrNil(bad)+"): the key of a live type differs from the key that RegisterTypeMigration builds from the caller's strings and from what other versions send for the same type")
+		})
 	},
+}
+
+func describeValOrNil(v ssa.Value) string {
+	if v == nil {
+		return ""
+	}
+	return describeVal(v)
+}
+
+// pkgPathNotRaw returns nil when every value that can flow into v is the result of reflect.Type.PkgPath() or a
+// constant empty string (through phis and the returns of unexported module helpers), else the first offending value.
+func pkgPathNotRaw(v ssa.Value, seen map[ssa.Value]bool, seenFn map[*ssa.Function]bool) ssa.Value {
+	if seen[v] {
+		return nil
+	}
+	seen[v] = true
+	switch x := v.(type) {
+	case *ssa.Const:
+		if x.Value != nil && x.Value.ExactString() == `""` {
+			return nil
+		}
+		return v
+	case *ssa.Phi:
+		for _, e := range x.Edges {
+			if b := pkgPathNotRaw(e, seen, seenFn); b != nil {
+				return b
+			}
+		}
+		return nil
+	case *ssa.Call:
+		if x.Call.IsInvoke() {
+			if x.Call.Method.Name() == "PkgPath" && sx.IsNamed(x.Call.Value.Type(), "reflect", "Type") {
+				return nil
+			}
+			return v
+		}
+		callee := sx.Callee(x)
+		if callee == nil || callee.Blocks == nil || callee.Pkg == nil || !load.IsModPath(callee.Pkg.Pkg.Path()) || callee.Signature.Results().Len() != 1 {
+			return v
+		}
+		if seenFn[callee] {
+			return nil
+		}
+		seenFn[callee] = true
+		for _, b := range callee.Blocks {
+			for _, in := range b.Instrs {
+				if r, ok := in.(*ssa.Return); ok && len(r.Results) == 1 {
+					if bad := pkgPathNotRaw(r.Results[0], seen, seenFn); bad != nil {
+						return bad
+					}
+				}
+			}
+		}
+		return nil
+	}
+	return v
 }
 
 // ---------------------------------------------------------------------------
